@@ -167,19 +167,27 @@ def main(run):
     return run.finish(lambda cs: replay_keys(run, cs))
 
 
+def _replay_one(item):
+    i, c, bpa = item
+    r = work((c["cpu"], bpa, [(c["text"], c["addr"])]))
+    return {"keys": sorted({k for k, _, _, _ in r["viol"]}), "id": i}
+
+
 def replay_keys(run, cases):
     vd = driver.Vdrv(core.ARTS["san"]["vdrv"])
     cpuinfo = {c["name"]: c for c in vd.cpus()}
     vd.close()
     from . import c01c
-    out = []
-    for c in cases:
+    out = [set() for _ in cases]
+    items = []
+    for i, c in enumerate(cases):
         if c.get("clause") == "c":
-            out.append(c01c.replay(c))
+            out[i] = c01c.replay(c)
             continue
-        core._VD = None
-        r = work((c["cpu"], cpuinfo[c["cpu"]]["bpa"], [(c["text"], c["addr"])]))
-        out.append({k for k, _, _, _ in r["viol"]})
+        items.append((i, c, cpuinfo[c["cpu"]]["bpa"]))
+    for r in core.pmap(_replay_one, items, chunk=4):
+        if "keys" in r:
+            out[r["id"]] = set(r["keys"])
     return out
 
 
